@@ -300,6 +300,9 @@ class Compiler:
             return_type=ret_type,
         )
         transformer.macros = self.transformer.macros
+        # The body becomes part of the effect of its callers. Its temporaries
+        # must not be the ones of a caller (or of another routine).
+        transformer.hybrid_tmp_prefix = f"h_tmp_{name}_"
         body = transformer.transform(ast_body)
         return SubRoutine(name, ret_type, params, body)
 
